@@ -99,6 +99,9 @@ ANCHORS = {
     'NmVerif.Simd.scalarOp / IntTy.encode / IntTy.decode': 'view::fun::add / subtract / multiply <T,T,T>::operator(): static_cast<T>(t op u) '
         '(view/ufuncs/add.hpp, subtract.hpp:31-41, multiply.hpp); reduce / outer variant <none_t,none_t,T> returning T',
     'NmVerif.Simd.IOp.identity': 'view.op.identity() / meta::has_identity_v in eval_reduction (evaluator/ufunc.hpp:182-217,252-259)',
+    'NmVerif.Simd.packLanes / Builtin.laneD / Builtin.laneF / vecExtUnaryD / vecExtUnaryF / selectsF32': 'NMTOOLS_SIMD_VECTOR_BUILTIN and simd_op_t<vector_t<n>,T>::sqrt / floor / ceil: '
+        'if constexpr (is_same_v<data_t,float>) builtin f else builtin (vector_extension.hpp:99-160); for the x86 / SIMDe contexts the one instruction per element type '
+        '(_mm*_ceil_ps / _pd, _mm*_floor_*, _mm*_sqrt_*) is assumed to be that lane',
     'NmVerif.Simd.scalarUnary / scalarBinary2d / scalarReduceAxis / scalarReduceAxisK / scalarOuter / scalarMatmul / scalarMatmulNDA': 'array::evaluator_t<view,none_t> (array/eval.hpp) on ufunc / broadcast / reduce / outer / matmul views = NumPy',
 }
 ASSUMPTIONS = [
@@ -495,13 +498,23 @@ def prec_unary_ref(op, x):
     return z
 
 
+LANE_MODEL_OPS = ('ceil', 'floor', 'sqrt')      # ops whose lane the Lean model evaluates at native precision (driver: c12.funary)
+
+
 def prec_unary_case(ctx, dt, L, op, data, tags):
     n = len(data)
     x = logical(data, [n], 'row', dt)
     exp = 'ok shape=%d val=%s' % (n, hexbits(prec_unary_ref(op, x), dt))
     req = 'unary dtype=%s op=%s lanes=%d shape=%d layout=row fmt=hex show=1 data=%s' % (dt, op, L, n, fdata(data))
-    return Case(req, hname(ctx), dom=True, oracle=exp, model=False, nontrivial=(n >= L),
-                tags=['unary', 'ctx=' + ctx, dt, 'values', 'precision', 'op=' + op] + tags)
+    kw = dict(model=False)
+    if op in LANE_MODEL_OPS:
+        # MODEL: Simd.simdEvalUnary over Simd.vecExtUnaryD / vecExtUnaryF (Simd/FloatLanes.lean) at Float / Float32 with the
+        # builtin selected as the unchanged tree does (usef = element type is float); operand sent as bit patterns
+        bits = x.view(np.uint32 if dt == 'f32' else np.uint64).ravel().tolist()
+        kw = dict(model=True, mreq='c12.funary dtype=%s op=%s lanes=%d usef=%d bits=%s' % (dt, op, L, 1 if dt == 'f32' else 0,
+                                                                                       ','.join(str(int(v)) for v in bits)))
+    return Case(req, hname(ctx), dom=True, oracle=exp, nontrivial=(n >= L),
+                tags=['unary', 'ctx=' + ctx, dt, 'values', 'precision', 'op=' + op] + tags + (['lane-model'] if op in LANE_MODEL_OPS else []), **kw)
 
 
 def pad_to(m, L):
